@@ -218,6 +218,20 @@ def loadH : Handler := fun inp impl => do
   let some cmdline := splitArgs args | throw "a flag without a value: config.Load would exit"
   let src : Sources := { cmdline := cmdline, env := env.filterMap envEntry, props := props }
   let some cfg := load src | throw "a command-line value that does not parse: config.Load would exit"
+  -- `want` is the generator's own statement of what it wrote; an input whose `want` is not what its texts say
+  -- (a shrinking step that removed a flag but kept the number) is not an input of the stream
+  for (n, w, fc, _) in fiveOf want do
+    match w with
+    | some v => if fc cfg != v then throw s!"want.{n} is not what the texts say"
+    | none =>
+      let malformed := match rawValue src ("proxy." ++ n) with
+        | some (_, txt) =>
+          if n == "maxconn" then
+            let body := match txt.toList with | '-' :: r => r | '+' :: r => r | cs => cs
+            body.isEmpty || (digitsValue body 0).isNone
+          else (parseDuration txt).isNone
+        | none => false
+      if !malformed then throw s!"want.{n} is null but the winning text is well-formed"
   let cell := setConfig Cell.init cfg
   let p := newHTTPProxy cell
   let tg := addTarget cell o
@@ -256,6 +270,85 @@ def loadH : Handler := fun inp impl => do
         | [], [] => "transport-missing"
     return ({ model := m, agree := m == impl, spec := spec, nontrivial := configured.length ≥ 3, tag := tag } : Verdict).toJson
 
+/-- c19.pool: spec = of `n` connections that become idle together the proxy keeps as many as proxy.maxconn says
+(0 = net/http's default of 2, negative = none), closes the others at once, and closes the kept ones after
+proxy.idleconntimeout (never without one). Written out from the input's numbers, independently of `poolFate`. -/
+def poolH : Handler := fun inp impl => do
+  let idleMs ← getI inp "idle_ms"
+  let maxconn ← getI inp "maxconn"
+  let n ← inp.getObjValAs? Nat "n"
+  let o ← kindOpts (← getS inp "kind")
+  let cell := setConfig Cell.init { dialTimeout := 2000000000, responseHeaderTimeout := 2000000000, keepAliveTimeout := 1000000000,
+                                    idleConnTimeout := idleMs * 1000000, maxConn := maxconn }
+  let tg := addTarget cell o
+  let tr := selectTransport (newHTTPProxy cell) tg
+  let fate := poolFate tr n 0
+  let mKept := poolKept tr n
+  let mClose : Option Int := idleCloseAt tr 0
+  let m := Json.mkObj [("kept", mKept), ("used", usedName tg),
+                       ("idle_close_us", match mClose with | some c => Json.num (JsonNumber.fromInt (c / 1000)) | none => Json.null),
+                       ("connections", fate.length)]
+  match impl.getObjValAs? Nat "opened" with
+  | .error _ =>
+    return ({ model := m, agree := false, spec := true, nontrivial := false, tag := "harness-error" } : Verdict).toJson
+  | .ok opened =>
+    let served ← impl.getObjValAs? Nat "served"
+    let closes ← impl.getObjValAs? (List Int) "closes_us"
+    let obs ← getI impl "obs_us"
+    let slack ← getI impl "slack_us"
+    let attempts ← getI impl "attempts"
+    let err := (impl.getObjValAs? String "err").toOption.getD ""
+    let idleUs := idleMs * 1000
+    let wantKept : Nat := if maxconn == 0 then min n 2 else if maxconn < 0 then 0 else min n maxconn.toNat
+    let earlyBound : Int := if idleMs > 0 then idleUs / 2 else obs / 2
+    let isEarly (c : Int) : Bool := decide (0 ≤ c) && decide (c ≤ earlyBound)
+    let early := closes.filter isEarly
+    let kept := closes.filter (fun c => !isEarly c)
+    let keptOk := kept.all (fun c => if idleMs > 0 then decide (idleUs - 10000 ≤ c) && decide (c ≤ idleUs + slack) else c == -1)
+    let complete := err.isEmpty && opened == n && served == n && closes.length == n
+    let spec := complete && kept.length == wantKept && keptOk
+    let mOk := kept.all (fun c => match mClose with | some t => decide (t / 1000 - 10000 ≤ c) && decide (c ≤ t / 1000 + slack) | none => c == -1)
+    let agree := complete && kept.length == mKept && early.length == n - mKept && mOk
+    let cls := (if n > wantKept then "limit-bites" else "all-kept") ++ (if idleMs > 0 then "/idle-timeout" else "/no-idle-timeout")
+    let tag :=
+      if spec then (if attempts > 1 then cls ++ "+remeasured" else cls)
+      else if !complete then "requests-not-served"
+      else if kept.length != wantKept then s!"kept-{kept.length}-of-{n}-configured-{maxconn}"
+      else if idleMs > 0 && kept.any (· == -1) then "idle-connection-never-closed"
+      else if idleMs > 0 && kept.any (fun c => decide (c > idleUs + slack)) then "idle-close-late"
+      else if idleMs > 0 then "idle-close-early"
+      else "closed-without-idle-timeout"
+    return ({ model := m, agree := agree, spec := spec, nontrivial := decide (idleMs > 0) || n > wantKept,
+              tag := tag ++ "/" ++ usedName tg } : Verdict).toJson
+
+/-- c19.path: spec = a request whose `Upgrade` is not `websocket` in some ASCII casing makes exactly one round
+trip, through the field `ServeHTTP`'s rule selects (skip-verify target ⇒ `InsecureTransport`, else `Transport`);
+an ASCII casing of `websocket` makes none. (Non-ASCII spellings are left to the comparison with the model.) -/
+def pathH : Handler := fun inp impl => do
+  let upgrade ← getS inp "upgrade"
+  let accept ← getS inp "accept"
+  let skip ← getB inp "skip"
+  let o : TargetOpts := ⟨"", skip, skip⟩
+  let tg := addTarget Cell.init o
+  let path := handlerPath upgrade accept
+  let pathName : String := match path with | .sse => "sse" | .default => "plain" | .websocket => "ws"
+  let expected : List String := match path with | .websocket => [] | _ => [usedName tg]
+  let m := Json.mkObj [("round_trips", Json.arr (expected.map Json.str).toArray), ("path", pathName)]
+  match impl.getObjValAs? (List String) "round_trips" with
+  | .error _ =>
+    return ({ model := m, agree := false, spec := true, nontrivial := false, tag := "harness-error" } : Verdict).toJson
+  | .ok rts =>
+    let ascii := upgrade.toList.all (fun c => c.toNat < 128)
+    let isWs := upgrade.toList.map Char.toLower == "websocket".toList
+    let want : List String := if isWs then [] else [if skip then "insecure" else "default"]
+    let spec := !ascii || rts == want
+    let tag :=
+      if spec then (pathName : String) ++ (if skip then "/insecure" else "/default") ++ (if !ascii then "/non-ascii-fold" else "")
+      else if rts.isEmpty then "no-round-trip-through-a-transport"
+      else if rts.length > 1 then "several-round-trips"
+      else "wrong-transport-selected"
+    return ({ model := m, agree := rts == expected, spec := spec, nontrivial := path != .websocket, tag := tag } : Verdict).toJson
+
 def streams : List (String × Handler) :=
-  [("c19.fields", fieldsH), ("c19.timing", timingH), ("c19.binary", timingH), ("c19.load", loadH)]
+  [("c19.fields", fieldsH), ("c19.timing", timingH), ("c19.binary", timingH), ("c19.load", loadH), ("c19.pool", poolH), ("c19.path", pathH)]
 end Fabio.Driver.C19
